@@ -151,7 +151,7 @@ class Gen:
         if r.random() < 0.25:
             injs = []
             for _ in range(r.choice([1, 1, 2])):
-                site = r.choice([1, 2, 2, 3, 4, 5, 7, 7, 8])
+                site = r.choice([1, 2, 2, 3, 4, 5, 7, 7, 8] + ([9, 9, 9] if self.focus in ("loggers", "mixed") else []))
                 k = r.choice([1, 1, 2, 3])
                 ops = []
                 for _ in range(r.choice([1, 1, 2, 3])):
@@ -252,6 +252,21 @@ def directed_scripts(variant):
     out.append(("dir_f12_removed_logger_flush", [
         "cfg grace=0 soft=4 hard=8 tcap=2", "sink 0 lvl=0", "sink 1 lvl=0", "logger 0 sinks=0 lvl=0", "logger 1 sinks=1 lvl=0", "start",
         "T 1 start", "L 1 0 4 10", "RL 1 0", "F 1 1", "P", "P", "R 1", "P", "P", "Q", "X"]))
+    # site 9 (inside a sink destructor run by the logger clean-up): another logger gets a statement and is removed while
+    # an earlier logger is being erased — the emptiness of the queues must be re-checked for it (C17)
+    out.append(("dir_site9_remove_during_sink_dtor", [
+        "cfg grace=0 soft=4 hard=8 tcap=2", "sink 0 lvl=0", "sink 1 lvl=0", "logger 0 sinks=0 lvl=0", "logger 1 sinks=1 lvl=0", "start",
+        "T 1 start", "L 1 0 4 10", "P", "P", "DS 0", "RL 1 0", "P @9.1=L_1_1_4_10,RL_1_1", "P", "P", "P", "Q", "X"]))
+    # the same window with a thread that has never logged before: its context registers inside the clean-up, so the
+    # per-logger emptiness check must also refresh the list of contexts it looks at
+    out.append(("dir_site9_new_thread_during_sink_dtor", [
+        "cfg grace=0 soft=4 hard=8 tcap=2", "sink 0 lvl=0", "sink 1 lvl=0", "logger 0 sinks=0 lvl=0", "logger 1 sinks=1 lvl=0", "start",
+        "T 1 start", "L 1 0 4 10", "P", "P", "DS 0", "RL 1 0", "P @9.1=T_2_start,L_2_1_4_10,RL_2_1", "P", "P", "P", "Q", "X"]))
+    out.append(("dir_site9_three_loggers", [
+        "cfg grace=0 soft=4 hard=8 tcap=2", "sink 0 lvl=0", "sink 1 lvl=0", "sink 2 lvl=0",
+        "logger 0 sinks=0,1 lvl=0", "logger 1 sinks=2 lvl=0", "logger 2 sinks=2 lvl=0", "start",
+        "T 1 start", "T 2 start", "L 1 0 4 10", "L 2 1 4 10", "P", "P", "P", "DS 0", "DS 1", "DS 2", "RL 1 0",
+        "P @9.1=L_2_2_4_20,RL_2_2 @9.2=L_1_1_6_10,RL_1_1,F_2_1", "R 2", "P", "R 2", "P", "R 2", "P", "P", "Q", "X"]))
     # backtrace: wrap, flush by level, explicit flush
     out.append(("dir_backtrace", [
         "cfg grace=0 soft=4 hard=8 tcap=2", "sink 0 lvl=0", "logger 0 sinks=0 lvl=0", "start", "T 1 start",
